@@ -122,6 +122,12 @@ def collect(cr, outs, scen_by_name, props_of, monitor_set):
             replay = {"kind": "engine", "property": cr.prop, "signature": sig, "monitors": monitor_set,
                       "scenario": scen_by_name[o["name"]], "labels": item["labels"], "violation": v}
             cr.add(sig, v["detail"], replay, size=len(item["labels"]))
+    if not samples:
+        # every path was cut by a violation: show the (real, replayed) traces that led to violations instead
+        for o in outs:
+            for item in o["violations"][:1]:
+                if len(samples) < 3:
+                    samples.append({"scenario": o["name"], "events": item["labels"][:40], "ended_in_violation": True})
     return tot, samples
 
 # ------------------------------------------------------------------------------------------------------
